@@ -1,12 +1,31 @@
 #!/bin/bash
 # Build the runner test binary from /repo's current working tree (hooks on) with the runtime overlay.
+#   build.sh <out> [extra,tags]
 set -euo pipefail
 cd "$(dirname "$0")"
 V=$(pwd)
 . "$V/env.sh"
-[ -f "$V/.build/geth/.stamp" ] || "$V/setup.sh" >&2
-[ -f "$V/.build/rtoverlay/overlay.json" ] || "$V/setup.sh" >&2
+B="$V/.build"
+if [ ! -f "$B/geth/.stamp" ] || [ ! -f "$B/rtoverlay/overlay.json" ] || [ ! -x "$B/instr" ]; then "$V/setup.sh" >&2; fi
+OUT="$(realpath -m "${1:-$B/sim.test}")"
+TAGS="verif${2:+,$2}"
+(
+  flock 9
+  # cooperative yield points in a scratch copy of storage.go (structural, see instr/main.go)
+  mkdir -p "$B/instr.d"
+  "$B/instr" /repo/storage/pebble/storage.go "$B/instr.d/storage.go.new" 2>/dev/null || { echo "build: instrumenting storage.go failed" >&2; exit 2; }
+  if ! cmp -s "$B/instr.d/storage.go.new" "$B/instr.d/storage.go"; then mv "$B/instr.d/storage.go.new" "$B/instr.d/storage.go"; else rm -f "$B/instr.d/storage.go.new"; fi
+  python3 - "$B" <<'PY'
+import json,sys
+B=sys.argv[1]
+o=json.load(open(B+"/rtoverlay/overlay.json"))
+o["Replace"]["/repo/storage/pebble/storage.go"]=B+"/instr.d/storage.go"
+new=json.dumps(o,indent=1,sort_keys=True)
+try: old=open(B+"/overlay.json").read()
+except Exception: old=""
+if new!=old: open(B+"/overlay.json","w").write(new)
+PY
+  cp -f /repo/go.sum "$V/sim/go.sum"
+) 9>"$B/build.lock"
 cd "$V/sim"
-cp /repo/go.sum "$V/sim/go.sum.repo"
-OUT="${1:-$V/.build/sim.test}"
-$GO test -c -tags verif -overlay "$V/.build/overlay.json" -o "$OUT" . >&2
+$GO test -c -tags "$TAGS" -overlay "$B/overlay.json" -o "$OUT" . >&2
